@@ -602,7 +602,7 @@ def main(run):
         if nviol > 12:
             return
         rep = {"what": what, **req.describe(), **extra,
-               "reproduce": "PYTHONPATH=$UFL_REPO:/verif/py /venv/bin/python -c 'import C05_gen' ; bin/check C05"}
+               "reproduce": "bin/check C05 --replay <this file>   (re-runs the request on $UFL_REPO, default /repo)"}
         run.violation(rep, found)
 
     def known_or_violation(req, what, extra):
